@@ -86,6 +86,7 @@ type FuncSpec struct {
 	Pure      bool
 	Blocking  bool // the call can block (C16, rule SB)
 	MayDiverge bool // the function need not return (no vacuity alarm for unreachable returns)
+	MayDivergeFor map[string]bool // ... only in the slices of these properties ("may-diverge [C05]": the environment of the property excludes every way out)
 	Wraps     map[string]bool
 	Where     string
 	External  bool
@@ -400,7 +401,16 @@ func (sp *Specs) parseSpecFile(path, pkg string) error {
 		case kw == "blocking" && curF != nil:
 			curF.Blocking = true
 		case kw == "may-diverge" && curF != nil:
-			curF.MayDiverge = true
+			if t := strings.TrimSpace(rest); strings.HasPrefix(t, "[") && strings.HasSuffix(t, "]") {
+				if curF.MayDivergeFor == nil {
+					curF.MayDivergeFor = map[string]bool{}
+				}
+				for _, w := range strings.Fields(t[1 : len(t)-1]) {
+					curF.MayDivergeFor[w] = true
+				}
+			} else {
+				curF.MayDiverge = true
+			}
 		case kw == "reveal" && curF != nil:
 			if curF.Reveals == nil {
 				curF.Reveals = map[string]bool{}
